@@ -64,3 +64,28 @@ def ack_for(med, entry, rx_name="T"):
 
 def unhex(h):
     return bytes.fromhex(h)
+
+
+def with_plus(part):
+    """the same part with the chip variant as one more dimension: every third enumerated case and a quarter of the
+    generated ones run on two non-plus nRF24L01 chips (FEATURE / DYNPD locked until the ACTIVATE command).  Only for
+    cases of the full driver: rf24_lite is documented as not compatible with the non-plus variant."""
+    from vlib.harness.runner import Part
+    src = part.source
+
+    def mark(c, nonplus):
+        if not nonplus or "plus" in c or c.get("drv", "full") == "lite" or c.get("peer", "full") == "lite":
+            return c
+        return dict(c, plus=False)
+
+    if part.kind == "enum":
+        def source():
+            for i, c in enumerate(src()):
+                yield mark(c, i % 3 == 2)
+    elif part.kind == "gen":
+        def source():
+            from hypothesis import strategies as st
+            return src().flatmap(lambda c: st.sampled_from([False, False, False, True]).map(lambda b: mark(c, b)))
+    else:
+        return part
+    return Part(part.name, part.kind, source, n=part.n, exhaustive=part.exhaustive, weight=part.weight)
